@@ -546,6 +546,29 @@ def _check_instrument(case, ctx):
         if h["init"]["kind"] != "default":
             nontrivial = True
         prev = bufs
+        # between two simulations the instrument may be cast (the volatility / variance properties have already been read
+        # above): everything it exposes afterwards - and the next simulation - is in the new dtype
+        if want_dtype in (torch.float32, torch.float64) and h["n_paths"] % 3 == 0:
+            new = torch.float64 if want_dtype == torch.float32 else torch.float32
+            with ctx.sut("C11/inst/cast"):
+                obj.to(new)
+                bufs_c = dict(obj.named_buffers())
+                exposed = dict(bufs_c)
+                if model != "cir" and model != "vasicek":
+                    exposed["volatility (property)"], exposed["variance (property)"] = obj.volatility, obj.variance
+            for k, v in exposed.items():
+                ctx.check(v.dtype == new and tuple(v.shape) == shp, "C11/inst/dtype",
+                          f"after simulate #{i + 1} and to({new}): '{k}' is {v.dtype} {tuple(v.shape)}, expected {new} {shp}")
+            if "volatility (property)" in exposed:
+                vv, va = exposed["volatility (property)"].double(), exposed["variance (property)"].double()
+                err = (vv - va.clamp(min=0).sqrt()).abs().max().item() if vv.numel() else 0.0
+                ctx.check(err <= 4 * torch.finfo(torch.float32).eps * max(1.0, float(vv.abs().max()) if vv.numel() else 1.0), "C11/inst/volatility-is-sqrt-variance",
+                          f"after a cast volatility differs from sqrt(variance) by {err:.3e}")
+            want_dtype = new
+            dtype = {torch.float32: "float32", torch.float64: "float64"}[new]
+            prev = bufs_c
+            ctx.cls("history:cast-between-simulations")
+            nontrivial = True
     ctx.nontrivial(nontrivial)
 
 
